@@ -254,7 +254,8 @@ Definition handle_user_mappings (u : unit) (sec : str) (args : list str) (suppor
     end
   else handle_user_remap u sec a4 support_manual.
 
-Fixpoint volumes_loop (unit_path : str) (vols : list str) (svc : unit) (tbl : table) (args : list str) : bres (list str * unit) :=
+(* [pinned] = true: split(':') and only the third part kept as options; false (repaired): splitn(3, ':') *)
+Fixpoint volumes_loop (pinned : bool) (unit_path : str) (vols : list str) (svc : unit) (tbl : table) (args : list str) : bres (list str * unit) :=
   match vols with
   | [] => COk (args, svc)
   | v :: r =>
@@ -262,23 +263,26 @@ Fixpoint volumes_loop (unit_path : str) (vols : list str) (svc : unit) (tbl : ta
       let '(source, dest, options) :=
         match parts with
         | [d] => ([], d, [])
-        | s :: d :: rest => (s, d, match rest with o :: _ => cCOLON :: o | [] => [] end)
+        | s :: d :: rest => (s, d, match rest with
+                                   | o :: more => cCOLON :: (if pinned then o else join [cCOLON] (o :: more))
+                                   | [] => []
+                                   end)
         | [] => ([], [], [])
         end in
       match source with
-      | [] => volumes_loop unit_path r svc tbl (args ++ [L "-v"; dest])
+      | [] => volumes_loop pinned unit_path r svc tbl (args ++ [L "-v"; dest])
       | _ =>
           do r1 <- handle_storage_source unit_path svc source tbl false;
           let '(src, svc') := r1 in
-          volumes_loop unit_path r svc' tbl
+          volumes_loop pinned unit_path r svc' tbl
             (args ++ [L "-v"; match src with [] => dest | _ => src ++ [cCOLON] ++ dest ++ options end])
       end
   end.
 
-Definition handle_volumes (u : unit) (unit_path : str) (sec : str) (svc : unit) (tbl : table) (args : list str)
+Definition handle_volumes (pinned : bool) (u : unit) (unit_path : str) (sec : str) (svc : unit) (tbl : table) (args : list str)
   : bres (list str * unit) :=
   do vols <- lk_all u sec (L "Volume");
-  volumes_loop unit_path vols svc tbl args.
+  volumes_loop pinned unit_path vols svc tbl args.
 
 Definition handle_pod (u : unit) (sec : str) (svc : unit) (svc_path : str) (tbl : table) (args : list str)
   : bres (list str * unit * table) :=
@@ -452,7 +456,7 @@ Definition default_resource_name (path : str) : bres str :=
 
 (* [kill_fixed] = false models the pinned KillMode handling (always set to mixed) *)
 Variable kill_fixed : bool.
-Variable mount_nl : bool.
+Variable mount_nl : bool.      (* true = the two pinned C02 defects: Mount= keeps the csv newline, Volume= drops text after the third ':' *)
 
 (* ---------- .container ---------- *)
 Definition from_container (u : unit) (path : str) (tbl : table) : cres (unit * str * table) :=
@@ -539,7 +543,7 @@ Definition from_container (u : unit) (path : str) (tbl : table) : cres (unit * s
               then args ++ [L "--tmpfs"; L "/tmp:rw,size=512M,mode=1777"] else args in
   do args <- handle_user u sec args;
   do args <- handle_user_mappings u sec args true;
-  do r4 <- handle_volumes u path sec svc tbl args;
+  do r4 <- handle_volumes mount_nl u path sec svc tbl args;
   let '(args, svc) := r4 in
   do au <- lk u sec (L "AutoUpdate");
   let args := match au with Some (c :: s) => args ++ [L "--label"; c_AUTO_UPDATE_LABEL ++ [cEQ] ++ c :: s] | _ => args end in
@@ -787,7 +791,7 @@ Definition from_pod (u : unit) (path : str) (tbl : table) : cres (unit * str * t
   let '(args, svc) := r1 in
   do args <- add_strings u sec pt_from_pod_unit_string_keys args;
   do args <- add_all_strings u sec pt_from_pod_unit_all_string_keys args;
-  do r2 <- handle_volumes u path sec svc tbl args;
+  do r2 <- handle_volumes mount_nl u path sec svc tbl args;
   let '(args, svc) := r2 in
   let args := args ++ [L "--infra-name"; name ++ L "-infra"; L "--name"; name] in
   let args := handle_podman_args u sec args in
@@ -833,7 +837,7 @@ Definition from_build (u : unit) (path : str) (tbl : table) : cres (unit * str *
   do r1 <- handle_networks u sec svc tbl args;
   let '(args, svc) := r1 in
   let args := args ++ with_flag (L "--secret") (lookup_all_args u sec (L "Secret")) in
-  do r2 <- handle_volumes u path sec svc tbl args;
+  do r2 <- handle_volumes mount_nl u path sec svc tbl args;
   let '(args, svc) := r2 in
   do r3 <- handle_set_working_directory u path svc TBuild;
   let '(context, svc) := r3 in
